@@ -44,6 +44,7 @@ DetClauses(r) ==
 
 Clauses(r) == CASE r.k = "sched" -> SchedClauses(r)
                 [] r.k = "det" -> DetClauses(r)
+                [] r.k = "team" -> << <<"reduction-independent-of-the-executing-team-size", r.top <= r.bound /\ r.nested <= r.bound>> >>
                 [] OTHER -> << <<"unknown-record", FALSE>> >>
 
 Failed(r) == IF Has(r, "e") THEN (IF r.e = "End" THEN <<>> ELSE <<"recorder:" \o r.e>>)
